@@ -9,7 +9,7 @@ from harness import docgen, project, tlc
 RENDER_FIXED = True      # spec/Render.tla constant Fixed: TRUE since the D4 repair is committed in /repo
 S_ALPHABET = {"P", "H", "B", "C", "T", "R", "Q(", "Lt(", "Ll(", "I(", ")"}
 LEAFS = {"P", "H", "B", "C"}      # leaf tokens the builder of Render.tla uses in the default bounded space
-RENDER_FIXED_T = False              # Render.tla constant FixedT (table / rule repair)
+RENDER_FIXED_T = True               # Render.tla constant FixedT (table / rule repair)
 MDIT_LACKS = ("fndef", "alert", "task", "fnref")
 
 
@@ -35,6 +35,10 @@ def mdit_toks(tree):
             out.append("H")
         elif k == "code":
             out.append("C")
+        elif k == "table":
+            out.append("T")
+        elif k == "hr":
+            out.append("R")
         elif k == "quote":
             out.append("Q(")
             [walk(c) for c in b[1]]
